@@ -27,7 +27,7 @@ def items(tier):
         fl2 = list(F.flows(2, F.KINDS4, (0.5, 1, 1.5, 3)))
         lays = ("MIX", "POOL2")
         fac = list(F.fac_specs("quick"))
-        nvar = 3
+        nvar = 5  # automatic variants too: work that is not a multiple of the unit rate ends below zero
     else:
         fl3 = list(F.flows(3, ("FS", "FF", "SS"), (1, 2, 3)))
         fl2 = list(F.flows(2, F.KINDS4, (0.5, 1, 1.5, 2, 3)))
@@ -54,7 +54,7 @@ def items(tier):
         for aa in (False, True):
             out.append((sp, {"rule": "TSLACK", "auto_abs": aa, "max_time": F.seq_bound(sp) + 12}))
     out.append(({"tasks": [{"name": "T0", "work": 3.0, "auto": True, "nf": True, "unit": 0.5}], "links": [], "teams": []}, {"rule": "TSLACK", "max_time": 12}))
-    for sp in F.double_link_specs() + [F.float_noise_spec()]:
+    for sp in F.double_link_specs() + [F.float_noise_spec()] + F.float_residue_specs():
         out.append((sp, {"rule": "TSLACK", "max_time": F.seq_bound(sp) + 10}))
     for sp in F.same_name_task_specs() + F.auto_in_workplace_specs():
         out.append((sp, {"rule": "TSLACK", "max_time": F.seq_bound(sp) + 10}))
